@@ -528,6 +528,19 @@ def finalize_attrs(rng, td, noise=()):
             if rng.random() < 0.3:
                 attrs.insert(rng.randrange(len(attrs) + 1), rng.choice(PLAIN_ATTRS))
             f.attr_src = attrs
+    # Debug is the one noise trait that takes an attribute at a variant: before, after or inside the attribute the
+    # variant already carries (the other traits' variant scanners have to step over it)
+    if "Debug" in noise and td.kind == "enum":
+        for v in td.variants:
+            if rng.random() < 0.3:
+                m = rng.choice(["Debug(name = Zz%s)" % v.name, 'Debug(rename = "Zz%s")' % v.name, "Debug = Zz%s" % v.name]
+                               + (["Debug(named_field = %s)" % (rng.choice(["true", "false"]) if v.shape == "tuple" else "true")] if v.shape != "unit" else []))
+                # (`named_field = false` on a named variant would make a field's `Debug(name = ..)` noise an offence)
+                if v.attr_src and v.attr_src[0].startswith("#[educe(") and rng.random() < 0.35:
+                    inner = v.attr_src[0][len("#[educe("):-2]
+                    v.attr_src[0] = "#[educe(%s)]" % rng.choice([m + ", " + inner, inner + ", " + m])
+                else:
+                    v.attr_src.insert(rng.randrange(len(v.attr_src) + 1), "#[educe(%s)]" % m)
 
 
 def value_tuples(rng, td, cap_per_variant):
